@@ -39,18 +39,31 @@ def marker(kind, i):
     return '%sq%sz' % (kind, chr(97 + i // 16) + chr(97 + i % 16))
 
 
+def twin_units(units, variant):
+    """indexes of the units that are written identically (variant 'twins': the last two units when they have the same level)"""
+    if variant == 'twins' and len(units) >= 2 and units[-1] == units[-2]:
+        return (len(units) - 2, len(units) - 1)
+    return ()
+
+
 def document(cls, units, variant):
     body = [marker('b', 0) + ' ']
+    twins = twin_units(units, variant)
     for i, u in enumerate(units):
-        if variant == 'plain':
+        if i in twins:
+            # two structurally identical units: same title, same text, same footnote
+            body.append('\\%s{Twin}Same bqppz\\footnote{fqppz}\n\n' % u)
+            continue
+        if variant in ('plain', 'twins'):
             title = marker('t', i)
         else:
             title = 'Same: title/x'           # colliding titles with forbidden characters
         s = '\\%s{%s}' % (u, title)
-        if variant != 'plain' and i == len(units) - 1:
-            s += '\\label{lb:x%d}' % i
+        if variant == 'rich' and i == len(units) - 1:
+            # the label of a file-producing unit spells the static name of the default template
+            s += '\\label{%s}' % ('index' if len(units) >= 2 else 'lb:x%d' % i)
         s += ' ' + marker('b', i + 1)
-        if variant != 'plain' and i == 0:
+        if variant == 'rich' and i == 0:
             s += '\\footnote{%s}' % marker('f', 0)
         body.append(s + '\n\n')
     return '\\documentclass{%s}\\begin{document}%s\\end{document}' % (cls, ''.join(body))
@@ -98,9 +111,23 @@ def judge(case, second=False):
     for fn, text in files.items():
         for mm in re.finditer(r'[bf]q[a-p][a-p]z', text):
             where.setdefault(mm.group(0), []).append((fn, mm.start()))
+    twins = twin_units(units, variant)
     bm = [marker('b', i) for i in range(len(units) + 1)]
     groups = {}
+    if twins:
+        # identical units: the shared body word must occur once per twin, distributed over the files as ownership says,
+        # and the shared footnote text exactly as often as the body word in every file
+        import collections
+        want = sorted(collections.Counter(own[t + 1] for t in twins).values())
+        have_b = collections.Counter(fn for fn, pos in where.get('bqppz', []))
+        have_f = collections.Counter(fn for fn, pos in where.get('fqppz', []))
+        if sorted(have_b.values()) != want:
+            problems.append('text of the identical units occurs %s times per file, expected %s' % (sorted(have_b.values()), want))
+        if have_f != have_b:
+            problems.append('footnote of the identical units occurs %s per file, its text %s' % (dict(have_f), dict(have_b)))
     for i, m in enumerate(bm):
+        if i - 1 in twins:
+            continue
         occ = where.get(m, [])
         if len(occ) != 1:
             problems.append('body marker %s of unit %d occurs %d times %s' % (m, i - 1, len(occ), [o[0] for o in occ]))
@@ -110,6 +137,8 @@ def judge(case, second=False):
         part_obs = sorted(tuple(i for pos, i in sorted(g)) for g in groups.values())
         part_exp = {}
         for i, o in enumerate(own):
+            if i - 1 in twins:
+                continue
             part_exp.setdefault(o, []).append(i)
         part_exp = sorted(tuple(v) for v in part_exp.values())
         if part_obs != part_exp:
@@ -118,9 +147,11 @@ def judge(case, second=False):
             idx = [i for pos, i in sorted(g)]
             if idx != sorted(idx):
                 problems.append('order inside %s is %s' % (fn, idx))
+        if twins:
+            pass        # owners that hold only twin units have no unique marker; the file count is checked below
         if tname != 'short_static' and len(files) != nfiles_expected:
             problems.append('%d files produced %s, expected %d' % (len(files), sorted(files), nfiles_expected))
-    if variant != 'plain' and units:
+    if variant == 'rich' and units:
         f = marker('f', 0)
         occ = where.get(f, [])
         if len(occ) != 1:
@@ -217,13 +248,19 @@ def run(tier, seed, rep):
         for units in shapes('article', 2):
             blocks.append(('article', units, 'rich', 'idtitle', None, 'XHTML', splits, False))
             blocks.append(('article', units, 'rich', 'default', ' ', 'HTML5min', [-10, 0, 1, 2, 3, 6], False))
+        for units in shapes('book', 3):
+            if len(units) >= 2 and units[-1] == units[-2]:
+                blocks.append(('book', units, 'twins', 'default', None, 'HTML5', [-10, 0, 1, 2, 3, 6], False))
+                blocks.append(('book', units, 'twins', 'default', None, 'XHTML', [0, 1, 2, 3], False))
         for units in shapes('book', 2):
             for t in ('num3', 'single', 'single_var', 'short_static'):
                 blocks.append(('book', units, 'rich', t, None, 'XHTML', [-10, 0, 1, 2, 6], False))
     else:
         for cls, n in (('book', 4), ('article', 4)):
             for units in shapes(cls, n):
-                for variant in ('plain', 'rich'):
+                for variant in ('plain', 'rich', 'twins'):
+                    if variant == 'twins' and not (len(units) >= 2 and units[-1] == units[-2]):
+                        continue
                     for t in TEMPLATES:
                         for theme in THEMES:
                             if len(units) == 4 and not (theme == 'XHTML' or (theme == 'HTML5' and t == 'default')):
